@@ -279,6 +279,12 @@ pub fn rgb_color() -> BoxedStrategy<ColorSpec> {
 
 pub fn any_color() -> BoxedStrategy<ColorSpec> {
     prop_oneof![
+        // colours that coincide with the defaults and with each other (an explicit black layer, an explicit white
+        // background, the same colour given as RGB and as RGBA with alpha 255)
+        2 => Just(ColorSpec::Rgb([0, 0, 0])),
+        1 => Just(ColorSpec::Rgba([0, 0, 0, 255])),
+        1 => Just(ColorSpec::Rgb([255, 255, 255])),
+        1 => prop_oneof![Just([200u8, 30, 30]), Just([30u8, 30, 200])].prop_map(ColorSpec::Rgb),
         3 => any::<[u8; 3]>().prop_map(ColorSpec::Rgb),
         3 => any::<[u8; 4]>().prop_map(ColorSpec::Rgba),
         1 => any::<[u8; 3]>().prop_map(|c| ColorSpec::Rgba([c[0], c[1], c[2], 255])),
